@@ -13,3 +13,20 @@ package server
 //@   ensures result3 == nil ==> len(cmd.Args) >= 2 && result2 == int(murmur3sum(result1))
 //@   ensures result3 == nil ==> (forall idx int :: firstSep(cmd.Args[1], idx) ==> idx >= 1 && sameSlice(result1, cmd.Args[1][idx+1:len(cmd.Args[1])]))
 //@   ensures len(cmd.Args) < 2 ==> result3 != nil
+
+//@ property C13 C11
+// ---- cross-partition scan fan-out: the per-partition COUNT is written into the COUNT argument, nothing else,
+// and it is never negative (the partition handlers index their result with it) ----
+//@ noeffect (*sync.WaitGroup).Add (*sync.WaitGroup).Wait (*sync.WaitGroup).Done (*github.com/youzan/ZanRedisDB/metric.ScanStats).UpdateScanStats github.com/youzan/ZanRedisDB/common.ExtractTable github.com/youzan/ZanRedisDB/node.IsSyncerOnly (*github.com/youzan/ZanRedisDB/common.LevelLogger).Infof
+//@ func (s *Server) GetMergeHandlers(cmd redcon.Command) (bool, []common.MergeCommandFunc, []redcon.Command, bool, error)
+//@   trusted resolves the partitions and their handlers; one deep copy of the command per partition
+//@   ensures result4 == nil ==> len(result1) >= 1 && len(result2) == len(result1) && fresh(result2) && (forall k int :: 0 <= k && k < len(result2) ==> len(result2[k].Args) == len(cmd.Args) && fresh(result2[k].Args))
+//@ func (s *Server) doScanCommon(cmd redcon.Command) ([]interface{}, []byte, error)
+//@   opt abstract=go
+//@   requires s != nil && len(cmd.Args) >= 1
+//@   callassert Itoa countIndex >= 1
+//@   modifies *
+//@ loop 1
+//@   invariant 0 <= i
+//@ loop 2
+//@   invariant length >= 1 && len(cmds) == length && len(handlers) == length && fresh(cmds) && (forall k int :: 0 <= k && k < len(cmds) ==> len(cmds[k].Args) == len(cmd.Args) && fresh(cmds[k].Args))
